@@ -1026,3 +1026,127 @@ def invalidation_before_consumers(ctx, rule):
                                  "sources, the consumer queued by the first event runs before the invalidation queued by the second and mirrors the stale result" % (
                                      cb, pv, lo_cons[3], lo_cons[1].qualname.rsplit(".", 1)[-1], lo_cons[0]), key="%s::invalidation-not-first::%s" % (g.qualname, cb.rsplit(".", 1)[-1]),
                      input="p = P(x=s.param.a, y=rx(s.param.b) + 100); s.param.update(a=2, b=2) -> p.y stays 101")
+
+
+def is_equal_model(ctx, rule):
+    """Comparator.is_equal interpreted abstractly on pairs of values described by their concrete type and the registered
+    kinds they belong to (numbers.Number / str / bytes / NoneType / a datetime type / the predicate-registered kind /
+    a list / a dict / none of these).
+
+    Specification: two values that both belong to a registered kind are compared with that kind's equality -- whatever
+    their concrete types (1 and 1.0, 2 and Fraction(2): numbers.Number is an abstract base, the concrete types are
+    unrelated); otherwise containers are compared element-wise; anything else is unequal."""
+    from engine.absint import Interp, Obj, PyFunc, Unsupported
+    from engine.loader import AnalysisError
+    f = ctx.repo.method(P + "Comparator", "is_equal")
+    NUM, STR, BYT, NON, DT = (Obj(n) for n in ("numbers.Number", "str", "bytes", "NoneType", "datetime"))
+    PRED = PyFunc("time_like_predicate", lambda o: "pred" in o.attrs["kinds"])
+    tag_kind = {id(NUM): "num", id(STR): "str", id(BYT): "bytes", id(NON): "none", id(DT): "dt"}
+    eq = PyFunc("operator.eq", lambda a, b: a.attrs["v"] == b.attrs["v"])
+    SUB = {("bool", "int")}                     # concrete subclass relations among the types used
+
+    def val(pytype, kinds, v):
+        return Obj("%s(%s)" % (pytype, v), pytype=pytype, kinds=set(kinds), v=v)
+    pairs = [
+        (val("int", ["num"], 1), val("float", ["num"], 1), True, "1 and 1.0"), (val("int", ["num"], 1), val("int", ["num"], 1), True, "1 and 1"),
+        (val("int", ["num"], 1), val("float", ["num"], 2), False, "1 and 2.0"), (val("int", ["num"], 2), val("Fraction", ["num"], 2), True, "2 and Fraction(2)"),
+        (val("bool", ["num"], 1), val("int", ["num"], 1), True, "True and 1"), (val("int", ["num"], 1), val("str", ["str"], 1), False, "1 and '1'"),
+        (val("str", ["str"], "a"), val("str", ["str"], "a"), True, "'a' and 'a'"), (val("NoneType", ["none"], None), val("NoneType", ["none"], None), True, "None and None"),
+        (val("NoneType", ["none"], None), val("int", ["num"], 0), False, "None and 0"), (val("datetime", ["dt"], 5), val("Timestamp", ["dt"], 5), True, "a datetime and an equal Timestamp"),
+        (val("Time", ["pred"], 3), val("OtherTime", ["pred"], 3), True, "two time-like objects of different classes with equal value"),
+        (val("list", ["list"], "L"), val("list", ["list"], "L"), "iter", "two lists"), (val("dict", ["dict"], "D"), val("dict", ["dict"], "D"), "map", "two dicts"),
+        (val("Thing", [], 1), val("Thing", [], 1), False, "two objects of an unregistered type"), (val("int", ["num"], 1), val("list", ["list"], "L"), "iter", "1 and a list"),
+    ]
+    problems, n = [], 0
+    for o1, o2, want, desc in pairs:
+        def hook(fn, args, kwargs):
+            if fn == "isinstance" and len(args) == 2:
+                subj, spec = args
+                if spec == "FunctionType" or (isinstance(spec, Obj) and spec.name == "FunctionType"):
+                    return subj is PRED
+                if isinstance(spec, PyFunc):
+                    raise _R("TypeError")            # isinstance(x, <function>) raises TypeError
+                if isinstance(spec, (tuple, list)):
+                    names = {"<type list>": "list", "<type set>": "set", "<type tuple>": "tuple", "<type dict>": "dict"}
+                    return isinstance(subj, Obj) and any(names.get(t) in subj.attrs.get("kinds", ()) for t in spec)
+                if spec == "<type dict>":
+                    return isinstance(subj, Obj) and "dict" in subj.attrs.get("kinds", ())
+                if isinstance(spec, Obj) and id(spec) in tag_kind:
+                    return isinstance(subj, Obj) and tag_kind[id(spec)] in subj.attrs.get("kinds", ())
+                return NotImplemented
+            if fn == "type" and len(args) == 1 and isinstance(args[0], Obj):
+                return "<pytype %s>" % args[0].attrs["pytype"]
+            if fn == "issubclass" and len(args) == 2 and all(isinstance(a, str) and a.startswith("<pytype ") for a in args):
+                a, b = args[0][8:-1], args[1][8:-1]
+                return a == b or (a, b) in SUB
+            if fn == "gen" and not args:
+                return [DT]
+            if fn == "cls.compare_iterator":
+                return "iter"
+            if fn == "cls.compare_mapping":
+                return "map"
+            return NotImplemented
+        from engine.absint import _Raise as _R
+        C = Obj("Comparator", equalities={NUM: eq, STR: eq, BYT: eq, NON: eq, PRED: eq}, gen_equalities={PyFunc("gen", lambda: [DT]): eq})
+        it = Interp(ctx.hier, call_hook=hook, globals={"FunctionType": "FunctionType"})
+        try:
+            outs = it.run_all(f, {f.params[0]: C, f.params[1]: o1, f.params[2]: o2})
+        except Unsupported as e:
+            raise AnalysisError("comparator model: absint cannot interpret Comparator.is_equal: %s -- %s cannot decide" % (e, rule))
+        if len(outs) != 1 or outs[0].imprecise or outs[0].kind != "return":
+            raise AnalysisError("comparator model: Comparator.is_equal is not interpretable precisely on %s (%s)" % (desc, outs[0].notes[:2] if outs else "no outcome"))
+        n += 1
+        if outs[0].value != want or type(outs[0].value) is not type(want):
+            problems.append("is_equal(%s) answers %r, specification %s" % (desc, outs[0].value, {True: "equal", False: "not equal", "iter": "the element-wise comparison of sequences",
+                                                                                                   "map": "the comparison of mappings"}[want]))
+    ctx.abstract_cases += n
+    if problems:
+        ctx.fail(rule, f, f.node, "comparator model: %s (%d disagreeing pair(s)): equal values count as a change (changes-only watchers run) or a change goes unnoticed" % (problems[0], len(problems)),
+                 key=f.qualname + "::is-equal-model")
+    else:
+        ctx.ok(rule, f, f.node, "comparator model: %d pairs (concrete type x registered kind): the registered kind's equality decides whatever the concrete types; containers element-wise; else unequal" % n)
+
+
+def queue_setters_model(ctx, rule):
+    """The property setters Parameters._events / _state_watchers interpreted abstractly: installing a new queue must not
+    change the queue object that was read before (trigger() sets the pending queue aside BY REFERENCE and installs an
+    empty one; the flush and discard_events keep references across the installation as well), and what is read
+    afterwards has exactly the contents installed."""
+    from engine.absint import Interp, Obj, Unsupported
+    from engine.loader import AnalysisError
+    PARAMS = P + "Parameters"
+    n = 0
+    for prop, key in (("_events", "events"), ("_state_watchers", "watchers")):
+        st = ctx.hier.property_setter(PARAMS, prop)
+        gt = ctx.hier.resolve(PARAMS, prop)
+        if st is None or gt is None:
+            raise AnalysisError("%s: property Parameters.%s (getter and setter) not found" % (rule, prop))
+        for new_kind in ("empty", "nonempty"):
+            e1, e2 = Obj("queued_before_1"), Obj("queued_before_2")
+            old = [e1, e2]
+            state = {"events": [], "watchers": [], "BATCH_WATCH": False, "TRIGGER": False}
+            state[key] = old
+            owner = Obj("owner", _param__private=Obj("private", parameters_state=state))
+            ns = Obj("ns", self_or_cls=owner, self=owner, cls=Obj("Cls"))
+            new = [] if new_kind == "empty" else [Obj("newly_queued")]
+            it = Interp(ctx.hier, dyn=PARAMS, inline=lambda m: False)
+            try:
+                outs = it.run_all(st, {st.params[0]: ns, st.params[1]: new})
+                outs2 = it.run_all(gt, {gt.params[0]: ns})
+            except Unsupported as e:
+                raise AnalysisError("%s: absint cannot interpret the %s property: %s" % (rule, prop, e))
+            if len(outs) != 1 or outs[0].imprecise or outs[0].kind != "return" or len(outs2) != 1 or outs2[0].imprecise or outs2[0].kind != "return":
+                raise AnalysisError("%s: the %s property is not interpretable precisely" % (rule, prop))
+            n += 1
+            now = outs2[0].value
+            if len(old) != 2 or old[0] is not e1 or old[1] is not e2:
+                ctx.fail(rule, st, st.node, "installing a new queue through Parameters.%s changes the queue object that was there before (it now holds %d item(s)): trigger() sets the pending "
+                                            "queue aside by reference and installs an empty one, so everything queued before the trigger is lost and those watchers never run" % (prop, len(old)),
+                         key="%s::queue-replaced-in-place" % st.qualname, input="with batch_call_watchers(p): p.a = 1; p.param.trigger('c') -> the watcher of a never runs")
+                break
+            if not isinstance(now, list) or len(now) != len(new) or any(a is not b for a, b in zip(now, new)):
+                ctx.fail(rule, st, st.node, "after installing %r through Parameters.%s the queue read back is %r" % (new, prop, now), key="%s::queue-not-installed" % st.qualname)
+                break
+        else:
+            ctx.ok(rule, st, st.node, "Parameters.%s: installing a queue rebinds the stored list; the previous list object is untouched" % prop)
+    ctx.abstract_cases += n
